@@ -66,6 +66,15 @@ def commRules (a b : Ins) : Bool :=
   else if !a.controls.isEmpty && a.controls == b.controls then true
   else a.targets == b.targets
 
+/-- the literal set `_SELF_COMMUTING_GATES` of `fixes/C05-1.patch` (the harness compares it with the set of
+the tree when the tree has one) -/
+def patchNames : List String :=
+  ["X", "Y", "Z", "RX", "RY", "RZ", "S", "T", "H", "SNOT", "SQRTNOT", "PHASEGATE", "IDLE",
+   "CNOT", "CX", "CY", "CZ", "CSIGN", "CS", "CT", "CRX", "CRY", "CRZ", "CPHASE", "TOFFOLI",
+   "SWAP", "ISWAP", "SQRTSWAP", "SQRTISWAP", "SWAPALPHA", "BERKELEY"]
+
+def wPatch (s : String) : Bool := patchNames.contains s
+
 def getIns (ns : List Ins) (i : Nat) : Ins := ns.getD i default
 
 /-- `commuting(gate_index, dependent_ind, nodes)`: `commutation_rules`, or the constant
